@@ -146,7 +146,12 @@ def gen_case(rng, direction, opts=None):
     for _ in range(rng.pick([0, 0, 1, 1, 2, 3]) if opts.get("excludes", True) else 0):
         base = rng.pick(names)
         comps = base.split("/")
-        k = rng.below(5)
+        k = rng.below(6)
+        if k == 5:
+            # spellings a path library would normalise to `base`; as patterns they are literal text
+            s = rng.pick([base.replace("/", "//", 1), base.replace("/", "/./", 1), base + "/.", "./" + base, "x/../" + base])
+            pats.append(s)
+            continue
         if k == 0:
             s = base
         elif k == 1:
@@ -201,6 +206,11 @@ def gen_case(rng, direction, opts=None):
                 if side == "dst" and any(st == "clash" for st in states.values()):
                     d = ""
                 extras.append((side, os.path.join(d, "zz.extra-%d" % i), r2.pick(["dangling", "dangling", "loop", "emptydir", "fifo"])))
+            gone = sorted(p for p, st in states.items() if st == "srcgone")
+            if gone and r2.chance(1, 2):
+                # ... and one in the source at the very path of a destination-only file: the source has no FILE
+                # there, so with --delete the stale destination file still goes
+                extras.append(("src", r2.pick(gone), r2.pick(["emptydir", "fifo", "dangling", "loop"])))
         case["extras"] = extras
         case["dst_symlink"] = r2.chance(1, 8)
         case["src_symlink"] = r2.chance(1, 8)
@@ -396,8 +406,8 @@ def check_delivery(ow, r, src0, dst0, src1, dst1, transfer, skipped, dele, viol,
                 viol("C04|%s|nonzero-exit-created-outside-plan" % d, dict(label, path=p))
 
 
-def run_case(ow, dry=False, trace=None, delay=None, fail=None, flags=None, timeout=90):
-    env = ow.env()
+def run_case(ow, dry=False, trace=None, delay=None, fail=None, flags=None, timeout=90, env_extra=None):
+    env = ow.env(env_extra)
     if trace or delay or fail:
         env = shim_env(env, log=trace, delay=delay, fail_at=fail[0] if fail else None, fail_class=fail[1] if fail else None)
     return run(ow.argv(dry=dry, flags=flags), env, cwd=ow.home, timeout=timeout)
@@ -450,7 +460,19 @@ def _c04_worker(args):
 
             if mode == 9 and transfer:
                 fail = ("%d:%d" % (rng.range(1, 6), rng.pick([5, 28])), rng.pick(["datawrite", "rename", "mutating"]))
-            r = run_case(ow, trace=trace, delay=delay, fail=fail)
+            sshfault = None
+            plain = sorted(p for p in transfer if re.fullmatch(r"[A-Za-z0-9._/-]+", p) and case["dstname"] == "dst" and case["srcname"] == "src")
+            if (mode == 8 or idx % 40 == 7) and direction != "local" and plain:
+                # the ssh client of one planned file's transfer dies: unlike a fault inside copia this is the
+                # ordinary way a transfer fails, and exit status 0 still has to mean "everything delivered"
+                victim = rng.pick(plain)
+                if src0[victim]["size"] < 70000:
+                    sshfault = rng.pick(["kill-before", "exit-before", "run-then-kill", "run-then-exit", "partial-out-then-term"]) + ":/" + victim
+                else:
+                    sshfault = rng.pick(["kill-before", "run-then-kill", "partial-out-then-kill", "partial-in-then-kill", "partial-out-then-kill", "partial-in-then-kill"]) + ":/" + victim
+                label["ssh_client_fault"] = sshfault
+                cnt("runs_with_a_failing_ssh_client[%s]" % sshfault.split(":")[0])
+            r = run_case(ow, trace=trace, delay=delay, fail=fail, env_extra={"SSH_STANDIN_FAULT": sshfault} if sshfault else None)
             if r.timed_out:
                 res["inconclusive"] += 1
                 ow.destroy()
@@ -846,6 +868,8 @@ def c09_scenarios(rng=None):
     # after the crash the user edits the source (same sizes, new bytes, newer mtimes) and only then runs the
     # command again: what the killed run left behind must not leak into the result
     S["source-edited-before-rerun"] = dict(src={"big": (k300, new), "sub/index.bin": (k700[:200000], new), "tiny": (b"t", new)}, dst={"big": (k300[::-1], old), "bystander": (b"keep me", old)}, delete=False, edit_before_rerun=True)
+    k3m = (k700 * 5)[:3 * 1024 * 1024 + 5000]
+    S["3M-over-older"] = dict(src={"big3": (k3m, new), "k": (b"k", new)}, dst={"big3": (k3m[:4096][::-1], old)}, delete=False)
     S["700K-over-older-delete"] = dict(src={"big7": (k700, new), "k": (b"k", new)}, dst={"big7": (k700[:1000], old), "stale/x": (b"s", old)}, delete=True)
     return S
 
